@@ -1621,7 +1621,7 @@ impl Ck {
                 }
                 let _ = self.expr(e);
             }
-            StmtKind::VarDecl(name, tyx, init, _) => {
+            StmtKind::VarDecl(name, tyx, init) => {
                 let t = self.resolve_ty(tyx, line);
                 if let Some(init) = init {
                     let x = self.expr(init);
